@@ -100,11 +100,6 @@ def gen_cases(ctx, n, ncorpus):
     for tag, src in WITNESSES:
         cases.append({"kind": "witness", "tag": tag, "src": src, "sp": [1, 1]})
         cases.append({"kind": "witness", "tag": tag + "@", "src": src, "sp": [3, 5]})
-    for tag, src, margin in [("ind1", "    x = 1; y = 2\n    z = 3\n", 4), ("ind2", "    @dec\n    def f(): pass\n    z = 's'\n", 4),
-                             ("ind3", "  if a:\n      b = \"é\"; c = 1\n  # c\n\n  d = 1", 2),
-                             ("ind4", "\tx = \"é\"; y = \"\"\"s\n\t# t\"\"\"\n\t\"doc\"\n", 1)]:
-        cases.append({"kind": "witness", "tag": tag, "src": src, "sp": [1, 1], "indent": margin})
-        cases.append({"kind": "witness", "tag": tag + "@", "src": src, "sp": [5, 1], "indent": margin})
     i = 0
     nfixed = len(cases)
     while len(cases) < n + nfixed:
@@ -119,11 +114,6 @@ def gen_cases(ctx, n, ncorpus):
             crlf = src.replace("\n", "\r\n")                      # CRLF line ends (FileText splits on "\n" only)
             if G.compiles(crlf):
                 case["src"] = crlf
-        elif k2 < .16:
-            prefix = r.choice(["    ", "  ", "\t", "        "])    # an indented block: PythonBlock parses the dedented text
-            ind = G.indent_by(src, prefix)
-            if G.compiles(G.dedent_by(ind, len(prefix))) and ind.strip():
-                case.update(src=ind, indent=len(prefix), sp=[sp[0], 1])
         cases.append(case)
     # sequences of operations on ONE FileText / PythonBlock object (cached attributes, re-basing, slicing)
     nseq = max(60, n // 8)
